@@ -132,7 +132,7 @@ def run_pls(ck, rng, tier, which):
         # components span (the inner iteration itself stops at a relative change of 1e-8)
         sv_ = np.linalg.svd(E0, compute_uv=False)
         kap_ = sv_[0] / max(sv_[min(a, len(sv_)) - 1], 1e-300) if len(sv_) and sv_[0] > 0 else 1.0
-        tol = 1e-8 * max(1.0, kap_ / 50.0)
+        tol = (1e-8 + 2e-9 * a) * max(1.0, kap_ / 50.0)
         bad = None
         tn = np.sqrt((T ** 2).sum(axis=0)) + 1e-300
         if which == "C03":
